@@ -183,8 +183,8 @@ HARNESSES['h_poseidon'] = dict(src='h_poseidon.cpp')
 
 PROPS['C06'] = dict(
     title='Poseidon permutation: scalar, AVX2, AVX512 agree with the spec on all states',
-    jobs=[J('h_poseidon', 'fast5', 3_000_000, 400_000_000, only='c06.perm,c06.backsolved', wq=12),
-          J('h_poseidon', 'fast2', 1_000_000, 100_000_000, only='c06.perm,c06.backsolved', wq=4, class_prefix='avx2-build:'),
+    jobs=[J('h_poseidon', 'fast5', 1_800_000, 200_000_000, only='c06.perm,c06.backsolved', wq=12),
+          J('h_poseidon', 'fast2', 600_000, 50_000_000, only='c06.perm,c06.backsolved', wq=4, class_prefix='avx2-build:'),
           J('h_poseidon', 'fast5', 1, 1, only='c06.kat', wq=1, wt=1, args=['--enumerate'], tag='kat'),
           J('h_poseidon', 'fast2', 1, 1, only='c06.kat', wq=1, wt=1, args=['--enumerate'], tag='kat', class_prefix='avx2-build:')],
     rule='rapidcheck-generated 12-element states (AVX512: pairs of states in the interleaved layout) from the boundary element classes, all-equal and one-hot states, and BACK-SOLVED states: '
